@@ -56,30 +56,50 @@ def _simple_subject(e: ast.expr) -> bool:
     return isinstance(e, ast.Name)
 
 
-def _pattern_test(pat, subj: ast.expr):
-    """(test expression | None for 'always', capture name | None) or raises ValueError."""
+def _pattern_test(pat, subj):
+    """(test expression | None for 'always', [(capture name, subject expression)]) or raises ValueError.
+    ``subj`` is an expression, or a list of expressions for a tuple display matched by sequence patterns."""
     from .astutil import clone
 
+    if isinstance(subj, list):
+        if isinstance(pat, ast.MatchSequence) and len(pat.patterns) == len(subj) and not any(isinstance(p_, ast.MatchStar) for p_ in pat.patterns):
+            tests, caps = [], []
+            for p_, s_ in zip(pat.patterns, subj):
+                t, c = _pattern_test(p_, s_)
+                if t is not None:
+                    tests.append(t)
+                caps += c
+            if not tests:
+                return None, caps
+            return (tests[0] if len(tests) == 1 else ast.BoolOp(op=ast.And(), values=tests)), caps
+        if isinstance(pat, ast.MatchOr):
+            subs = [_pattern_test(p_, subj) for p_ in pat.patterns]
+            if any(c for _, c in subs):
+                raise ValueError("capture inside an or-pattern")
+            if any(t is None for t, _ in subs):
+                return None, []
+            return ast.BoolOp(op=ast.Or(), values=[t for t, _ in subs]), []
+        if isinstance(pat, ast.MatchAs) and pat.pattern is None and pat.name is None:
+            return None, []
+        raise ValueError("tuple subject with a non-sequence pattern")
     if isinstance(pat, ast.MatchValue):
-        return ast.Compare(left=clone(subj), ops=[ast.Eq()], comparators=[clone(pat.value)]), None
+        return ast.Compare(left=clone(subj), ops=[ast.Eq()], comparators=[clone(pat.value)]), []
     if isinstance(pat, ast.MatchSingleton):
-        return ast.Compare(left=clone(subj), ops=[ast.Is()], comparators=[ast.Constant(value=pat.value)]), None
+        return ast.Compare(left=clone(subj), ops=[ast.Is()], comparators=[ast.Constant(value=pat.value)]), []
     if isinstance(pat, ast.MatchAs) and pat.pattern is None:
-        return None, pat.name
+        return None, ([(pat.name, subj)] if pat.name else [])
     if isinstance(pat, ast.MatchAs):
-        t, cap = _pattern_test(pat.pattern, subj)
-        if cap is not None:
-            raise ValueError("nested capture")
-        return t, pat.name
+        t, caps = _pattern_test(pat.pattern, subj)
+        return t, caps + [(pat.name, subj)]
     if isinstance(pat, ast.MatchClass) and not pat.patterns and not pat.kwd_patterns:
-        return ast.Call(func=ast.Name(id="isinstance", ctx=ast.Load()), args=[clone(subj), clone(pat.cls)], keywords=[]), None
+        return ast.Call(func=ast.Name(id="isinstance", ctx=ast.Load()), args=[clone(subj), clone(pat.cls)], keywords=[]), []
     if isinstance(pat, ast.MatchOr):
         subs = [_pattern_test(p_, subj) for p_ in pat.patterns]
-        if any(cap is not None or t is None for t, cap in subs):
+        if any(caps or t is None for t, caps in subs):
             raise ValueError("capture / wildcard inside an or-pattern")
         if all(isinstance(p_, ast.MatchValue) for p_ in pat.patterns):
-            return ast.Compare(left=clone(subj), ops=[ast.In()], comparators=[ast.Tuple(elts=[clone(p_.value) for p_ in pat.patterns], ctx=ast.Load())]), None
-        return ast.BoolOp(op=ast.Or(), values=[t for t, _ in subs]), None
+            return ast.Compare(left=clone(subj), ops=[ast.In()], comparators=[ast.Tuple(elts=[clone(p_.value) for p_ in pat.patterns], ctx=ast.Load())]), []
+        return ast.BoolOp(op=ast.Or(), values=[t for t, _ in subs]), []
     raise ValueError(f"pattern {type(pat).__name__}")
 
 
@@ -89,22 +109,46 @@ def lower_match(st: ast.Match, counter: list) -> list[ast.stmt]:
 
     pre: list[ast.stmt] = []
     subj = st.subject
-    if not _simple_subject(subj):
+    if isinstance(subj, ast.Tuple) and not any(isinstance(e, ast.Starred) for e in subj.elts) and any(isinstance(c.pattern, (ast.MatchSequence, ast.MatchOr)) for c in st.cases):
+        elems = []
+        for e in subj.elts:
+            if _simple_subject(e) or isinstance(e, ast.Constant):
+                elems.append(e)
+            else:
+                counter[0] += 1
+                tmp = f"_m{counter[0]}"
+                pre.append(ast.copy_location(ast.Assign(targets=[ast.Name(id=tmp, ctx=ast.Store())], value=e), st))
+                elems.append(ast.Name(id=tmp, ctx=ast.Load()))
+        subj = elems
+    elif not _simple_subject(subj):
         counter[0] += 1
         tmp = f"_m{counter[0]}"
         pre.append(ast.copy_location(ast.Assign(targets=[ast.Name(id=tmp, ctx=ast.Store())], value=subj), st))
         subj = ast.Name(id=tmp, ctx=ast.Load())
+
+    class _S(ast.NodeTransformer):
+        def __init__(self, env):
+            self.env = env
+
+        def visit_Name(self, node):
+            if isinstance(node.ctx, ast.Load) and node.id in self.env:
+                return clone(self.env[node.id])
+            return node
+
     arms = []
     try:
         for c in st.cases:
-            t, cap = _pattern_test(c.pattern, subj)
+            t, caps = _pattern_test(c.pattern, subj)
             body = list(c.body)
-            if cap:
-                body = [ast.copy_location(ast.Assign(targets=[ast.Name(id=cap, ctx=ast.Store())], value=clone(subj)), c.body[0])] + body
-                if c.guard is not None:
-                    raise ValueError("guard on a capture pattern")
-            if c.guard is not None:
-                t = c.guard if t is None else ast.BoolOp(op=ast.And(), values=[t, c.guard])
+            guard = c.guard
+            if caps:
+                if any(isinstance(e, list) for _, e in caps):
+                    raise ValueError("capture of the whole tuple subject")
+                body = [ast.copy_location(ast.Assign(targets=[ast.Name(id=nm, ctx=ast.Store())], value=clone(e)), c.body[0]) for nm, e in caps] + body
+                if guard is not None:
+                    guard = _S({nm: e for nm, e in caps}).visit(clone(guard))
+            if guard is not None:
+                t = guard if t is None else ast.BoolOp(op=ast.And(), values=[t, guard])
             arms.append((t, body))
     except ValueError:
         return [st]
